@@ -284,8 +284,9 @@ func (fg *FnGen) step(fr *Frame, b *ssa.BasicBlock, ins ssa.Instruction, st *Sta
 		return st
 	case *ssa.Go:
 		fg.note("goroutine spawn dropped at its spawn site in " + fr.fn.Name())
-		// the spawned function may run concurrently and write shared state: havoc heap
-		return fg.havocAll(st)
+		// the spawned function may run concurrently and write shared state: havoc heap (what no callee can reach or
+		// change — non-escaping cells, cells only read by closures, `option stable` messages — is kept as for a call)
+		return fg.havocCall(st, reach)
 	case *ssa.Defer:
 		fr.defers = append(fr.defers, x)
 		fg.set(st, fmt.Sprintf("defer:%p", x), SBool, True)
